@@ -2,6 +2,7 @@ package exec
 
 import (
 	"encoding/json"
+	"strings"
 	"fmt"
 	"go/types"
 	"sort"
@@ -165,6 +166,10 @@ func (ex *Exec) jsonEncodeValue(v Value, fr *frame, depth int) (Value, string) {
 }
 
 func (ex *Exec) jsonEncodeTyped(t types.Type, v Value, fr *frame, depth int) (Value, string) {
+	// a MarshalJSON method declared in the module under test is executed for real
+	if res, failed, handled := ex.customMarshal(t, v, fr, depth); handled {
+		return res, failed
+	}
 	if t.String() == "github.com/Comcast/sheens/core.StopReason" {
 		// generated MarshalJSON: the constant's name
 		names := []string{"Done", "Limited", "InternalError", "BreakpointReached"}
@@ -372,4 +377,52 @@ func (ex *Exec) jsonParseSymbolic(s *SymStr) (Value, bool) {
 type parseRes struct {
 	ok  bool
 	val *Lazy
+}
+
+// customMarshal runs a module type's own MarshalJSON (value or pointer receiver) and takes the value it
+// encoded; such methods may lock, copy or rename, which the field-by-field model would miss.
+func (ex *Exec) customMarshal(t types.Type, v Value, fr *frame, depth int) (Value, string, bool) {
+	recvT := t
+	recv := v
+	named, isNamed := t.(*types.Named)
+	if p, isPtr := t.(*types.Pointer); isPtr {
+		named, isNamed = p.Elem().(*types.Named)
+		if c, ok := v.(*Cell); !ok || c == nil {
+			return nil, "", false
+		}
+	}
+	if !isNamed || named.Obj().Pkg() == nil {
+		return nil, "", false
+	}
+	path := named.Obj().Pkg().Path()
+	if path != ex.cfg.ModulePath && !strings.HasPrefix(path, ex.cfg.ModulePath+"/") {
+		return nil, "", false
+	}
+	var m *ssa.Function
+	if sel := ex.prog.MethodSets.MethodSet(recvT).Lookup(named.Obj().Pkg(), "MarshalJSON"); sel != nil {
+		m = ex.prog.MethodValue(sel)
+	}
+	if m == nil {
+		if _, isPtr := t.(*types.Pointer); isPtr {
+			return nil, "", false
+		}
+		// pointer-receiver method on an addressable value: only reachable through a pointer in practice
+		return nil, "", false
+	}
+	if depth > 40 {
+		panic(engineErr("json model: MarshalJSON recursion"))
+	}
+	res := ex.call(m, []Value{recv}, nil, fr)
+	tup, ok := res.(Tuple)
+	if !ok || len(tup) != 2 {
+		panic(engineErr("json model: unexpected MarshalJSON result"))
+	}
+	if e := ex.forceIface(tup[1]); e.T != nil {
+		return nil, "MarshalJSON failed", true
+	}
+	sl, _ := tup[0].(Slice)
+	if sl.Arr != nil && sl.Arr.Enc != nil {
+		return sl.Arr.Enc.v, "", true
+	}
+	panic(engineErr("json model: MarshalJSON of %s returned bytes that are not a model encoding", t))
 }
